@@ -51,7 +51,16 @@ var clashWords = [][]string{
 	// ... and numbered fallback names that are predeclared: float3+"2" = float32, int3+"2" = int32, int6+"4" = int64
 	{"float-3", "float_3", "float3", "Float3", "int-3", "int_3", "int3", "uint-3", "uint3"},
 	{"int-6", "int_6", "int6", "Int6", "in-t6", "INT6"},
+	// keywords and predeclared identifiers that only appear once the word boundaries are folded and the name is lower-cased
+	// (go-to -> goTo -> goto): the keyword / predeclared tests must see the FINAL name
+	splitWords,
 }
+
+var splitWords = []string{"go-to", "GoTo", "go_to", "go.to", "goTo", "de-fer", "De_fer", "deFer", "fall-through", "fallThrough", "Fall_Through", "inter_face", "Inter-Face",
+	"pack.age", "Pack-Age", "sel-ect", "im-port", "Im_Port", "re-turn", "con-st", "st-ruct", "Str-uct", "ty-pe", "Ty_Pe", "fu-nc", "ch-an", "ma-p", "ra-nge", "sw-itch",
+	"ca-se", "el-se", "v-ar", "f-or", "i-f", "g-o", "G-O", "bre-ak", "cont-inue", "Defa.ult",
+	"str-ing", "Str_ing", "st.ring", "StrIng", "er-ror", "Er_Ror", "a-ny", "in-t", "In_T", "bo-ol", "le-n", "Le.N", "ne-w", "ni-l", "Ni_L", "tr-ue", "fal-se", "io-ta",
+	"float-32", "Float_32", "uint-8", "u-int", "by-te", "ru-ne", "app-end", "ma-ke", "pa-nic", "compar-able"}
 
 // identifiers of the universe scope (what the repaired bind refuses)
 var predeclSegs = []string{"string", "error", "any", "int", "bool", "len", "new", "nil", "true", "false", "iota", "float32", "float64", "byte", "rune",
@@ -79,7 +88,12 @@ func (g *gen) seg() string {
 		return core.Pick(g.r, core.Pick(g.r, clashWords))
 	case k < 8:
 		return core.Pick(g.r, predeclSegs)
+	case k < 9:
+		return core.Pick(g.r, oddSegs)
 	default:
+		if g.r.Chance(50) {
+			return core.Pick(g.r, splitWords)
+		}
 		return core.Pick(g.r, oddSegs)
 	}
 }
@@ -269,6 +283,11 @@ func (prop) Generate(r *core.RNG, tier string) []json.RawMessage {
 		refs("example.com/m", "a.com/_-", "a.com/-", "a.com/_", ""),
 		refs("example.com/m", "a.com/x--y", "a.com/xy", "a.com/x..y"),
 		refs("example.com/m", "base-3", "base_3", "rand-v", "rand_v", "encoding/base32", "math/rand/v2"),
+		// keywords / predeclared identifiers that appear only after folding the word boundaries (seeded mutation C03-a:
+		// strings.ToLower moved behind the keyword test gave go-to -> goto)
+		refs("example.com/m", "github.com/acme/go-to", "example.com/GoTo", "a.com/de-fer", "a.com/fall-through", "a.com/inter_face", "a.com/pack.age", "a.com/sel-ect", "a.com/im-port"),
+		refs("example.com/m", "go-to", "GoTo", "de-fer", "Fall_Through", "g-o", "ty-pe", "i-f"),
+		refs("example.com/m", "a.com/str-ing", "a.com/Str_ing", "b.org/er-ror", "a.com/le-n", "a.com/float-32", "ni-l", "In_T", "a.com/x/tr-ue"),
 		// predeclared identifiers as local names (fixes/C03-3)
 		refs("example.com/m", "example.com/x/string"),
 		refs("example.com/m", "example.com/x/string", "example.com/xstring", "example.com/y/string", "string", "String"),
